@@ -62,6 +62,26 @@ def gen_cases(ctx):
                 cases.append({"kind": "pair", "history": [
                     {"cls": spec[a], "rec": a, "ce": 'kit_ce "%s"' % a},
                     {"cls": spec[b], "rec": probe, "ce": 'kit_ce "%s"' % b}]})
+    # (c) case-variant twins: a run-time class whose signature / structure is the kit class's spelled in
+    #     lower case (lower-case ambiguity letters are literal), asked before and after the kit class
+    for cno, p in enumerate(classes):
+        if p["signature"] is not None and p["structure_owner"] == "AbstractPart":
+            sig = [p["signature"][0].lower(), p["signature"][1].lower()]
+            sp = {"kind": "sub", "name": "Twin%d" % cno, "parent": spec[p["name"]], "sig": sig}
+            cl = "(part_cls %s %s %s %s)" % (gens.c_role(p["role"]), pattern.c_enzyme(p["cutter"]),
+                                            pattern.c_pattern(pattern.tokenize(sig[0], ctx.lettermap)),
+                                            pattern.c_pattern(pattern.tokenize(sig[1], ctx.lettermap)))
+        else:
+            text = p["structure"].lower()
+            sp = {"kind": "custom", "role": p["role"], "enzyme": p["cutter"]["name"], "structure": text,
+                  "name": "Twin%d" % cno}
+            cl = "(C %s %s %s)" % (gens.c_role(p["role"]), pattern.c_enzyme(p["cutter"]),
+                                   pattern.c_pattern(pattern.tokenize(text, ctx.lettermap)))
+        ce = '(CE "Twin%d" ["Twin%d"] %s)' % (cno, cno, cl)
+        a = {"cls": spec[p["name"]], "rec": p["name"], "ce": 'kit_ce "%s"' % p["name"]}
+        b = {"cls": sp, "rec": p["name"], "ce": ce}
+        cases.append({"kind": "twin", "history": [a, b]})
+        cases.append({"kind": "twin", "history": [b, a]})
     # (b) random longer histories, with subclasses created at run time
     nh = 60 if ctx.quick else 600
     for hno in range(nh):
